@@ -45,6 +45,26 @@ def op (name : String) (j : Json) : Except String (Option Json) := do
     let ks ← jArr j "ks"
     let k (i : Nat) : Except String Nat := do let v ← asInt ks[i]!; pure v.toNat
     pure (some (.bool (Spec.readBackOK a b (← k 0) (← k 1) (← k 2))))
+  | "export" =>
+    -- one row through export, re-parse and re-export; `impl_*` = what the implementation produced
+    let a ← atomOfJson (← jVal j "row")
+    let inRange (x : Rat) : Bool := decide (-(19999999 : Rat) / 2 < x ∧ x < (199999999 : Rat) / 2)
+    if !(inRange a.x && inRange a.y && inRange a.z) then
+      pure (some (Json.mkObj [("must_raise", .bool true)]))
+    else
+      let line ← jStr j "impl_line"
+      let fails := Spec.lineFailures a line.toList
+      match j.getObjVal? "impl_row" with
+      | .ok (.arr r) =>
+        let b ← atomOfJson (.arr r)
+        let ks ← jArr j "ks"
+        let k (i : Nat) : Except String Nat := do let v ← asInt ks[i]!; pure v.toNat
+        let line2 ← jStr j "impl_line2"
+        pure (some (Json.mkObj [("must_raise", .bool false), ("failures", .arr (fails.map Json.str).toArray),
+          ("readback", .bool (Spec.readBackOK a b (← k 0) (← k 1) (← k 2))),
+          ("reexport", .bool (Spec.reexportOK b line.toList line2.toList))]))
+      | _ =>
+        pure (some (Json.mkObj [("must_raise", .bool false), ("failures", .arr (fails.map Json.str).toArray)]))
   | "zone" =>
     -- a zone written for (chain, num) must be read back as (chain, num)
     let chain ← jStr j "chain"; let num ← jInt j "num"
